@@ -272,13 +272,21 @@ async fn attempt(case: &[Value]) -> (Value, bool) {
         }
     });
     let t = Duration::from_millis(timeout_ms());
+    // the pause between tries is irrelevant to what the property states; the settings vary with the case so that
+    // every shape of it occurs: below the cap for ever, constant at the cap, growing to the cap, starting above it
+    let (b0, bmax, factor) = match (tries as usize + list(&case[4]).len() + bytes(&case[3]).len()) % 4 {
+        0 => (1, 2, 1.0),
+        1 => (2, 2, 1.0),
+        2 => (1, 3, 2.0),
+        _ => (3, 2, 1.5),
+    };
     let transport = HttpTransportBuilder::new()
         .tries(tries)
         .timeout(t)
         .connect_timeout(t)
-        .initial_backoff(Duration::from_millis(1))
-        .max_backoff(Duration::from_millis(2))
-        .backoff_factor(1.0)
+        .initial_backoff(Duration::from_millis(b0))
+        .max_backoff(Duration::from_millis(bmax))
+        .backoff_factor(factor)
         .build();
     let url = url::Url::parse(&format!("http://127.0.0.1:{}/resource", port)).unwrap();
     let code = |k: TransportErrorKind| match k {
